@@ -1,5 +1,133 @@
-(* Properties_C03.v — HLL content is the per-slot max of coupons in every mode and register width. *)
+(* Properties_C03.v — HLL content is the per-slot max of coupons in every mode and register width.
+   Only statements, closed by [exact]; proofs live in HllProofs / HllOpenAddr / HllAuxProofs / HllRegsProofs /
+   HllSetProofs / Hll4Proofs / HllSketchProofs.  All statements are about the executable definitions of HllDefs.v
+   that are extracted and run against the C++ ([sk_new], [sk_updates] = fold of [sk_update] (hll_sketch::coupon_update),
+   [sk_copy_as], [sk_content] / [hll_regs] (the iterator read-out printed by the query op)).
+   Quantification: every lg_k in 4..21, every target type, start_full_size or not, EVERY sequence of 32-bit coupons
+   ([cvalid c := c < 2^32]; the coupon 0 is ignored by coupon_update and by the specification).
+   Specification (HllDefs): [slot_max lgk C s] = max of the values of the coupons of C folded to slot s,
+   [spec_regs lgk C] = the 2^lgk slot maxima, [sort_distinct] = sorted list of the distinct elements.
+   NOT proved here: hipAccum / estimators / bounds (floating point; only compared on outputs by the oracle). *)
 From Coq Require Import ZArith NArith List Bool Lia.
-From DS Require Import Word Murmur3 RunnerLib HllDefs HllProofs.
+From DS Require Import Word Murmur3 RunnerLib HllDefs HllProofs HllAuxProofs HllSetProofs Hll4Proofs HllSketchProofs.
 Import ListNotations.
 Local Open Scope N_scope.
+
+(* L0: the specification registers are the per-slot maxima: an upper bound that is attained (or 0) *)
+Theorem C03_spec_is_slot_max : forall lgk C s, s < 2 ^ lgk ->
+  getN (spec_regs lgk C) s = slot_max lgk C s /\
+  (forall c, In c C -> c_slot lgk c = s -> c_val c <= slot_max lgk C s) /\
+  (slot_max lgk C s = 0 \/ exists c, In c C /\ c_slot lgk c = s /\ c_val c = slot_max lgk C s).
+Proof.
+  intros lgk C s Hs. split; [now apply getN_spec_regs|]. split; [intros c; apply slot_max_ub|apply slot_max_attained].
+Qed.
+
+(* Main theorem.  For every type, lg_k, start_full_size flag and coupon sequence the run never throws, and
+   - the mode (0 list, 1 set, 2 HLL) is [mode_of lgk full n], a function of the number n of distinct coupons only:
+     list while n < 8, then (lg_k >= 8) set while n <= 3*2^(lg_k-5), then HLL; HLL from the start when full-size;
+   - the logical content is [content_spec]: the sorted set of distinct coupons in list/set mode, the per-slot maxima
+     [spec_regs lgk cs] in HLL mode (through the list -> set -> HLL promotions, the HLL_6 packing, the HLL_4 cur_min
+     shifts and aux exceptions). *)
+Theorem C03_content_spec : forall ty lgk full cs, 4 <= lgk -> lgk <= 21 -> Forall cvalid cs ->
+  exists i, sk_run ty lgk full cs = Some i /\ sk_content i = content_spec lgk full cs /\
+            sk_mode i = mode_of lgk full (ndistinct cs) /\ sk_lgk i = lgk /\ sk_ty i = ty.
+Proof. exact sk_run_content. Qed.
+
+(* order, duplicates and the target type are irrelevant: two runs over sequences with the same SET of coupons,
+   in any two types, end in the same mode with the same content *)
+Theorem C03_order_duplicates_type_independent : forall ty1 ty2 lgk full cs1 cs2,
+  4 <= lgk -> lgk <= 21 -> Forall cvalid cs1 -> Forall cvalid cs2 -> same_set (nonzero cs1) (nonzero cs2) ->
+  exists i1 i2, sk_run ty1 lgk full cs1 = Some i1 /\ sk_run ty2 lgk full cs2 = Some i2 /\
+                sk_content i1 = sk_content i2 /\ sk_mode i1 = sk_mode i2.
+Proof. exact sk_run_set_independent. Qed.
+
+(* a sketch started full-size holds the same registers as one that went through the promotions *)
+Theorem C03_full_size_agrees : forall ty1 ty2 lgk cs, 4 <= lgk -> lgk <= 21 -> Forall cvalid cs ->
+  mode_of lgk false (ndistinct cs) = 2 ->
+  exists i1 i2, sk_run ty1 lgk true cs = Some i1 /\ sk_run ty2 lgk false cs = Some i2 /\
+                sk_content i1 = CRegs (spec_regs lgk cs) /\ sk_content i2 = CRegs (spec_regs lgk cs).
+Proof. exact sk_run_full_size_agrees. Qed.
+
+(* hll_sketch(const hll_sketch&, target_hll_type): the converted copy has the same content and mode, the new type,
+   and keeps behaving like a sketch of the new type fed the whole stream *)
+Theorem C03_copy_as_preserves_content : forall ty ty' lgk full cs cs2,
+  4 <= lgk -> lgk <= 21 -> Forall cvalid cs -> Forall cvalid cs2 ->
+  exists i i' i'', sk_run ty lgk full cs = Some i /\ sk_copy_as ty' i = Some i' /\
+    sk_content i' = sk_content i /\ sk_mode i' = sk_mode i /\ sk_ty i' = ty' /\ sk_lgk i' = lgk /\
+    sk_updates i' cs2 = Some i'' /\ sk_content i'' = content_spec lgk full (cs ++ cs2) /\
+    sk_mode i'' = mode_of lgk full (ndistinct (cs ++ cs2)).
+Proof. exact sk_copy_as_content. Qed.
+
+(* HLL mode: the registers read through the iterator are the slot maxima; the estimator inputs kxq0, kxq1 and the
+   zero count used by the composite estimator and the bounds are functions of the registers alone (hence equal for
+   the three types and any presentation order); HLL_6/HLL_8 keep cur_min = 0 and no aux map; HLL_4 keeps
+   cur_min = the smallest register, num_at_cur_min = the number of registers holding it, and the aux map holds
+   exactly the pairs (slot, value) with value - cur_min >= 15 *)
+Theorem C03_hll_mode_state : forall ty lgk full cs i,
+  4 <= lgk -> lgk <= 21 -> Forall cvalid cs -> sk_run ty lgk full cs = Some i -> mode_of lgk full (ndistinct cs) = 2 ->
+  exists h, i = IHll h /\ hll_regs h = Some (spec_regs lgk cs) /\
+    h_kxq0 h = kxq0_of (spec_regs lgk cs) /\ h_kxq1 h = kxq1_of (spec_regs lgk cs) /\
+    est_zeros h = count_eq 0 (spec_regs lgk cs) /\
+    (ty <> T4 -> h_curmin h = 0 /\ h_numat h = count_eq 0 (spec_regs lgk cs) /\ h_aux h = None) /\
+    (ty = T4 -> (forall s, s < 2 ^ lgk -> h_curmin h <= getN (spec_regs lgk cs) s) /\
+                (exists s, s < 2 ^ lgk /\ getN (spec_regs lgk cs) s = h_curmin h) /\
+                h_numat h = count_eq (h_curmin h) (spec_regs lgk cs) /\
+                arep lgk (h_aux h) (exc lgk (h_curmin h) (spec_regs lgk cs))).
+Proof. exact sk_run_hll. Qed.
+
+(* one HLL_4 update on any array satisfying the representation invariant: never throws (no aux lookup fails, the
+   "impossible case 2" and every throwing branch of shiftToBiggerCurMin are unreachable), computes the slot max *)
+Theorem C03_hll4_update_step : forall h regs c, inv4 h regs -> cvalid c ->
+  exists h', hll4_update h c = Some h' /\ inv4 h' (reg_max_upd (h_lgk h) regs c) /\ same_cfg h h' /\
+             (0 < h_numat h -> 0 < h_numat h').
+Proof. exact hll4_update_step. Qed.
+
+(* the specification registers and the canonical coupon list depend on the coupon SET only *)
+Theorem C03_spec_depends_on_set_only : forall lgk full A B, same_set (nonzero A) (nonzero B) ->
+  content_spec lgk full A = content_spec lgk full B.
+Proof. exact content_spec_set. Qed.
+
+(* is_empty() is true exactly when no non-zero coupon was fed (coupons as produced by HllUtil::coupon carry a value >= 1),
+   in every mode and type, for a full-size start too *)
+Theorem C03_is_empty_correct : forall ty lgk full cs i, 4 <= lgk -> lgk <= 21 -> Forall cvalid cs -> valued cs ->
+  sk_run ty lgk full cs = Some i -> (sk_is_empty i = true <-> nonzero cs = []).
+Proof. exact sk_is_empty_spec. Qed.
+
+(* ---------- non-vacuity ---------- *)
+Definition all_cvalid (cs : list N) : bool := forallb (fun c => c <? 4294967296) cs.
+
+(* lg_k = 4, HLL_4: every slot gets value 1 (cur_min shifts to 1), slot 3 gets 20 (an aux exception, 20 - 1 >= 15),
+   duplicates; the same multiset reversed into an HLL_8 and an HLL_6 sketch gives the same registers *)
+Example C03_nonvacuous_hll :
+  let cs := map (fun s => pair_sv s 1) (seqN 16) ++ [pair_sv 3 20; pair_sv 3 20; pair_sv 5 2] in
+  all_cvalid cs = true /\ mode_of 4 false (ndistinct cs) = 2 /\
+  match sk_run T4 4 false cs, sk_run T8 4 false (rev cs), sk_run T6 4 true cs with
+  | Some (IHll h4), Some (IHll h8), Some (IHll h6) =>
+      hll_regs h4 = Some (spec_regs 4 cs) /\ hll_regs h8 = hll_regs h4 /\ hll_regs h6 = hll_regs h4 /\
+      h_curmin h4 = 1 /\ h_numat h4 = 14 /\ aux_pairs h4 = [pair_sv 3 20] /\ getN (spec_regs 4 cs) 3 = 20 /\
+      h_kxq0 h4 = h_kxq0 h8 /\ h_kxq0 h6 = h_kxq0 h8
+  | _, _, _ => False
+  end.
+Proof. vm_compute. repeat split; reflexivity. Qed.
+
+(* lg_k = 10: 30 distinct coupons with duplicates: set mode (8 <= 30 <= 96), content = the sorted distinct coupons;
+   a converted copy keeps it *)
+Example C03_nonvacuous_set :
+  let cs := map (fun s => pair_sv (s * 37 + 5) (1 + s mod 7)) (seqN 30) ++ map (fun s => pair_sv (s * 37 + 5) (1 + s mod 7)) (seqN 9) in
+  all_cvalid cs = true /\ mode_of 10 false (ndistinct cs) = 1 /\
+  match sk_run T4 10 false cs with
+  | Some i => sk_mode i = 1 /\ sk_content i = CCoupons (sort_distinct cs) /\
+              match sk_copy_as T8 i with Some i' => sk_content i' = sk_content i /\ sk_ty i' = T8 | None => False end
+  | None => False
+  end.
+Proof. vm_compute. repeat split; reflexivity. Qed.
+
+Print Assumptions C03_spec_is_slot_max.
+Print Assumptions C03_content_spec.
+Print Assumptions C03_order_duplicates_type_independent.
+Print Assumptions C03_full_size_agrees.
+Print Assumptions C03_copy_as_preserves_content.
+Print Assumptions C03_hll_mode_state.
+Print Assumptions C03_hll4_update_step.
+Print Assumptions C03_spec_depends_on_set_only.
+Print Assumptions C03_is_empty_correct.
